@@ -89,6 +89,21 @@ class RStrip(T):
         return 'RStrip(%r, %r)' % (self.term, self.chars)
 
 
+class RStripLines(RStrip):
+    """'\\n'.join(line.rstrip(chars) for line in term.split('\\n')): every line of the text loses its trailing characters of the set"""
+    per_line = True
+
+    def __repr__(self):
+        return 'RStripLines(%r, %r)' % (self.term, self.chars)
+
+
+class LinesOf:
+    """term.split('\\n') (not yet joined again); ops: per-line operations applied by a comprehension"""
+
+    def __init__(self, term, ops=()):
+        self.term, self.ops = term, tuple(ops)
+
+
 class AccMark(T):
     """start-of-iteration value of an accumulator inside a loop body"""
 
@@ -368,6 +383,15 @@ class Interp:
                 raise _nt(e, '(comprehension form)')
             g = e.generators[0]
             lst = self.ev(g.iter, env)
+            if isinstance(lst, LinesOf) and isinstance(g.target, ast.Name):
+                # per-line operation on the lines of a text: identity or rstrip of a constant character set
+                v_, el = g.target.id, e.elt
+                if isinstance(el, ast.Name) and el.id == v_:
+                    return lst
+                if isinstance(el, ast.Call) and isinstance(el.func, ast.Attribute) and el.func.attr == 'rstrip' and isinstance(el.func.value, ast.Name) \
+                        and el.func.value.id == v_ and not el.keywords and len(el.args) <= 1 and all(isinstance(a_, ast.Constant) and isinstance(a_.value, str) for a_ in el.args):
+                    return LinesOf(lst.term, lst.ops + (('rstrip', el.args[0].value if el.args else None),))
+                raise _nt(e, '(per-line operation)')
             if not isinstance(lst, ListOf):
                 raise _nt(e, '(comprehension over non-list)')
             def one():
@@ -447,9 +471,20 @@ class Interp:
                 v = self.ev(f.value, env)
                 if isinstance(v, T):
                     return RStrip(v, None)       # None: all whitespace
+            if f.attr == 'split' and len(e.args) == 1 and isinstance(e.args[0], ast.Constant) and e.args[0].value == '\n' and not e.keywords:
+                v = self.ev(f.value, env)
+                if isinstance(v, T):
+                    return LinesOf(v)
             if f.attr == 'join' and len(e.args) == 1:
                 sep = self.ev(f.value, env)
                 arg = self.ev(e.args[0], env)
+                if isinstance(arg, LinesOf):
+                    if not (isinstance(sep, Lit) and sep.v == '\n'):
+                        raise _nt(e, '(lines joined with another separator)')
+                    out = arg.term
+                    for op, chars in arg.ops:
+                        out = RStripLines(out, chars)
+                    return out
                 if isinstance(arg, T) and isinstance(e.args[0], ast.Name) and e.args[0].id in self.__dict__.get('piece_names', ()):
                     if isinstance(sep, Lit) and sep.v == '':
                         return arg
@@ -1204,13 +1239,14 @@ class TBuilder:
             pl = pred_lang(t.test, t.var, self.alpha)
             return self.embed(cur, base.intersect(pl if t.pol else pl.complement()))
         if isinstance(t, RStrip):
+            per_line = getattr(t, 'per_line', False)
             if in_repeat or not self.markers:
                 base = TBuilder(self.alpha, [], self.slot_lang, {}).lang(t.term)
-                return self.embed(cur, rstrip_lang(base, t.chars))
+                return self.embed(cur, rstrip_marked(base, t.chars, per_line=True) if per_line else rstrip_lang(base, t.chars))
             # slots inside the stripped term keep their markers: strip on the marked language
             sub = TBuilder(self.alpha, self.markers, self.slot_lang, self.tags)
             sub.used = self.used
-            return self.embed_marked(cur, rstrip_marked(sub.lang(t.term), t.chars))
+            return self.embed_marked(cur, rstrip_marked(sub.lang(t.term), t.chars, per_line=per_line))
         if isinstance(t, Join):
             def inner(c):
                 first = self.term(t.item, c, True)
@@ -1285,11 +1321,13 @@ def rstrip_lang(lang, chars):
                             rx.split_classes(lang.classes(), [1 << c for c in cs]))
 
 
-def rstrip_marked(lang, chars):
+def rstrip_marked(lang, chars, per_line=False):
     """{ rstrip(w) : w in lang } on a marked language: the trailing characters of the set are deleted, the
-    markers that stood among them are kept (they end up at the end of the text)"""
+    markers that stood among them are kept (they end up at the end of the text).  per_line: the same for every line of w
+    (the trailing characters of each "\\n"-separated line are deleted, the newlines are kept)"""
     alpha = lang.alpha
     nA = alpha.n
+    nl = alpha.idx['\n'] if per_line else None
     cs = set(alpha.idx[c] for c in chars) if chars is not None else {i for i, c in enumerate(alpha.syms) if isinstance(c, str) and c.isspace()}
 
     def close(S):
@@ -1313,6 +1351,12 @@ def rstrip_marked(lang, chars):
         for q, tail, last in S:
             if sym >= nA:
                 out.add((lang.trans[q][sym], tail, last))
+            elif per_line and sym == nl:
+                # a kept newline: the line before it has been stripped (tail mode, or it ends with a character outside the set)
+                if tail or not last:
+                    n = lang.trans[q][sym]
+                    out.add((n, False, False))
+                    out.add((n, True, False))
             elif not tail:
                 n = lang.trans[q][sym]
                 incs = sym in cs
@@ -1324,7 +1368,7 @@ def rstrip_marked(lang, chars):
     def accepting(S):
         return any(lang.acc[q] and (tail or not last) for q, tail, last in S)
     return rx.from_function(alpha, list(lang.markers), start(), step, accepting,
-                            rx.split_classes(lang.classes(), [1 << c for c in cs]))
+                            rx.split_classes(lang.classes(), [1 << c for c in cs] + ([1 << nl] if per_line else [])))
 
 
 def rstrip_nodes(term, out=None):
@@ -1356,16 +1400,23 @@ def strip_loss_witness(term, alpha, slot_lang, preserve):
         inner = b.lang(r.term)
         cs = set(alpha.idx[c] for c in r.chars) if r.chars is not None else {i for i, c in enumerate(alpha.syms) if isinstance(c, str) and c.isspace()}
 
-        def step(s, sym, cs=cs):
+        per_line = getattr(r, 'per_line', False)
+        nl = alpha.idx['\n']
+
+        def step(s, sym, cs=cs, per_line=per_line):
             inside, hit = s
+            if hit == 'lost':
+                return s
             if sym == nA:
                 return (True, hit)
             if sym == nA + 1:
                 return (False, hit)
+            if per_line and sym == nl:
+                return (inside, 'lost' if hit else False)     # characters of the set right before a newline are deleted
             if sym in cs:
                 return (inside, hit or inside)
             return (inside, False)
-        mon = rx.from_function(alpha, markers, (False, False), step, lambda s: s[1], rx.split_classes([alpha.full], [1 << c for c in cs]))
+        mon = rx.from_function(alpha, markers, (False, False), step, lambda s: bool(s[1]), rx.split_classes([alpha.full], [1 << c for c in cs] + [1 << nl]))
         w = inner.intersect(mon).witness()
         if w is not None:
             return w
@@ -1411,7 +1462,7 @@ def show(term):
     if isinstance(term, Refine):
         return '[%s | %s%s]' % (show(term.term), '' if term.pol else 'not ', norm(term.test))
     if isinstance(term, RStrip):
-        return 'rstrip(%s, %r)' % (show(term.term), term.chars)
+        return '%s(%s, %r)' % ('rstrip-each-line' if getattr(term, 'per_line', False) else 'rstrip', show(term.term), term.chars)
     if isinstance(term, Tagged):
         return '<%s: %s>' % (term.tag, show(term.term))
     if isinstance(term, Join):
